@@ -11,6 +11,7 @@ CONSTANTS
  Withs = {TRUE, FALSE}
  Chunks = {1, 6}
  LyingSizes = FALSE
+ LieMax = 1
  InlineData = FALSE
  Conc = 3
  Probes = FALSE
@@ -19,6 +20,7 @@ CONSTANTS
  TarUnverified = FALSE
  MTs = {TRUE}
  DigestHdrs = {"served"}
+ Trailers = {FALSE}
  Sts = {"std"}
  DropKinds = {"ueof"}
 INIT Init
